@@ -192,6 +192,10 @@ func runParent(def *CheckDef, tier string, seed int64, scratch string, nw int) i
 				}
 				lb, _ := os.ReadFile(logPath)
 				logs := string(lb)
+				if harnessFault(logs) {
+					st.broken = "harness fault (not attributed to the code under test): " + trunc(logs, 1500)
+					return
+				}
 				sig := "worker-death"
 				for _, ln := range strings.Split(logs, "\n") {
 					if strings.HasPrefix(ln, "fatal error:") || strings.HasPrefix(ln, "panic:") {
@@ -328,4 +332,20 @@ func runParent(def *CheckDef, tier string, seed int64, scratch string, nw int) i
 		fmt.Printf("INCONCLUSIVE: %s\n", trunc(s, 300))
 	}
 	return code
+}
+
+// harnessFault: did the worker die in harness code rather than in the code under test?
+func harnessFault(logs string) bool {
+	i := strings.Index(logs, "goroutine ")
+	if i < 0 {
+		return false
+	}
+	for _, ln := range strings.Split(logs[i:], "\n")[1:] {
+		ln = strings.TrimSpace(ln)
+		if ln == "" || strings.HasPrefix(ln, "/") || strings.HasPrefix(ln, "panic(") || strings.HasPrefix(ln, "runtime.") || strings.HasPrefix(ln, "[") {
+			continue
+		}
+		return strings.HasPrefix(ln, "main.") || strings.HasPrefix(ln, "verifharness/")
+	}
+	return false
 }
